@@ -90,23 +90,6 @@ open SeaQ.Escape SeaQ.Render SeaQ.Stmt SeaQ.Scan
 
 /-! ## content and context -/
 
-/-- what a value must satisfy on its own to be written inline -/
-def valOK (d : Backend) (v : Val) : Bool :=
-  match v.v with
-  | .num t => t.toList.all (plainChar d)
-  | .str s => s.all (fun c => !(excludedChars d).contains c)
-  | .quoted t => t.toList.all (fun c => c != '\'' && c != '\\')
-  | _ => true
-
-/-- what a piece must satisfy on its own (no caller-supplied text with quotes / marks, no panic marker, representable values) -/
-def contentOK (d : Backend) (inl : Bool) : Piece → Bool
-  | .s t => t.toList.all (plainChar d)
-  | .raw t => t.all (plainChar d)
-  | .id _ => true
-  | .c v => valOK d v
-  | .p v => !inl || valOK d v
-  | .bad => false
-
 /-- a following character after which nothing written before it can be misread -/
 def okNext (nxt : Option Char) : Bool :=
   match nxt with
@@ -156,7 +139,11 @@ theorem okPiece_sep (d : Backend) (inl : Bool) (nxt : Option Char) (p : Piece)
     cases pl <;> simp_all [litOK, valOK]
   cases p with
   | s t => simp_all [okPiece, contentOK]
-  | raw t => simp_all [okPiece, contentOK]
+  | raw t =>
+    simp only [contentOK, Bool.and_eq_true, Bool.not_eq_true', List.all_eq_true] at hc
+    have hpl : t.all (plainChar d) = true := by
+      simp only [List.all_eq_true]; intro c hcm; exact digit_plain d c (hc.2 c hcm)
+    simp [okPiece, hpl, hpf]
   | id n => simp_all [okPiece]
   | c v => simp only [contentOK] at hc; simp [okPiece, hlit v hc]
   | p v =>
